@@ -10,7 +10,7 @@ I(s)        == [i \in DOMAIN s |-> Const(R(s[i]))]
 
 BQuick(u) == CV({-1, 0, 1, 2}, {1, 2})
           \cup {I(<<1, 0, -1>>), I(<<0, 0, 2>>), I(<<2, -1, 1>>), I(<<1, 0, 0, 0, -1>>), I(<<0, 0, 0, 2>>)}
-AQuick(u) == {<<Const(R(a0))>> \o r : a0 \in {1, -1, 2}, r \in {<<>>} \cup CV({-1, 0, 1, 2}, {1})
+AQuick(u) == {<<Const(R(a0))>> \o r : a0 \in {1, -1, 3}, r \in {<<>>} \cup CV({-1, 0, 1, 2}, {1})
                                                      \cup {I(<<1, -1>>), I(<<0, 2>>), I(<<-1, 1>>), I(<<0, 0, 1>>)}}
 
 BFull(u) == CV({-1, 0, 1, 2}, {1, 2, 3}) \cup {I(<<1, 0, 0, 0, -1>>), I(<<0, 0, 0, 2>>), <<Half, Const(R(1))>>,
